@@ -26,8 +26,8 @@ LEVEL = "exploration"
 DESIGN_REF = "DESIGN.md §1 C13"
 RULE = (
     "exhaustive: every source of length 0..3 over {0,1,2} (40 sources) x every history of "
-    "length <=3 (quick) / <=4 (thorough) over the 24 core parametrised observations, and of length "
-    "<=2 (quick) / <=3 (thorough) over all 36 observations (negative starts/stops, deferred copies, "
+    "length <=3 (quick) / <=4 (thorough) over the 25 core parametrised observations (one of them hands the history over to a deep copy), and of length "
+    "<=2 (quick) / <=3 (thorough) over all 37 observations (negative starts/stops, deferred copies, "
     "interleaved iterators, ...); plus seeded random histories of length <=12 on sources of length "
     "<=8 with strings and nested lists. distinct_nontrivial = distinct (source, history) pairs with "
     "a non-empty history that ran to the end under the model (exhaustive units are disjoint by "
@@ -63,7 +63,7 @@ CORE_OPS = [
     {"k": "in", "v": 1},
     {"k": "eq", "w": "same"}, {"k": "eq", "w": "lazy"},
     {"k": "count", "v": 1},
-    {"k": "rev"}, {"k": "copy"}, {"k": "listify"},
+    {"k": "rev"}, {"k": "copy"}, {"k": "listify"}, {"k": "usecopy"},
     {"k": "hasind", "i": 1},
     S(1, None), S(None, 2), S(0, 5), S(None, None, 2), S(None, None, -1), S(2, 0, -1),
 ]
@@ -96,6 +96,7 @@ def op_name(op):
     if k == "hasind":
         return f"has_ind({op['i']})"
     return {"rev": "reversed()", "copy": "deep_copy", "copyd": "deep_copy (enumerated last)",
+            "usecopy": "deep_copy (later observations are made on the copy)",
             "iter2": "two interleaved iterators", "iter": "iterate", "len": "len", "bool": "bool",
             "listify": "listify()"}.get(k, k)
 
@@ -119,7 +120,7 @@ def op_kind(op, L):
         return "neg-index"
     if k == "eq":
         return "eq-" + op["w"]
-    if k in ("copy", "copyd"):
+    if k in ("copy", "copyd", "usecopy"):
         return "copy"
     if k in ("iterk", "iter2"):
         return "iter"
@@ -156,7 +157,7 @@ def expect(op, src):
         return len(src)
     if k in ("iter", "listify", "copy"):
         return list(src)
-    if k == "copyd":
+    if k in ("copyd", "usecopy"):
         return None
     if k == "iter2":
         return [list(src), list(src)]
@@ -407,7 +408,13 @@ def run_history(src, ops, mode="gen", exp_cache=None):
         nkept0 = len(kept)
         obs = None
         try:
-            obs = observe(lazy, op, src, kept, cap, LazyList, deep_copy)
+            if op["k"] == "usecopy":
+                # the copy takes over as the subject; the original is re-enumerated at the end
+                c2 = deep_copy(lazy)
+                kept.append((lazy, list(src), "the original after later observations on its copy"))
+                lazy = c2
+            else:
+                obs = observe(lazy, op, src, kept, cap, LazyList, deep_copy)
         except Exception as e:  # noqa - an observation defined on a list must not raise
             an = {"anomaly": "raise", "shape": "raises-" + type(e).__name__, "observed": repr(e)[:160]}
             del kept[nkept0:]
@@ -736,7 +743,7 @@ def rnd_value(r, src):
 def rnd_op(r, src):
     L = len(src)
     k = r.choice(["idx", "idx", "neg", "len", "iter", "iterk", "iter2", "bool", "in", "eq", "count", "rev",
-                  "copy", "copyd", "listify", "hasind", "slice", "slice", "slice"])
+                  "copy", "copyd", "usecopy", "listify", "hasind", "slice", "slice", "slice"])
     if k == "idx":
         return {"k": "idx", "i": r.choice([r.randint(0, max(0, L - 1)), L, L + 1, r.randint(0, 2 * L + 3)])}
     if k == "neg":
